@@ -10,7 +10,8 @@ from vlib import core, slicecheck, fcutil
 from vlib.core import Infra
 
 LEVEL = "model_checking"
-CTXS = ["plain", "let", "if", "arm", "lambda", "afterfull", "afterdflt", "callresult", "payloadvar", "untyped", "untypedlambda"]
+CTXS = ["plain", "let", "if", "arm", "lambda", "afterfull", "afterdflt", "callresult", "payloadvar", "coincide", "coincide2", "untyped", "untypedlambda"]
+NORUN = ("coincide", "coincide2")        # (accepted programs of these contexts are not compiled and run: other names / arities)
 UNTYPED = ("untyped", "untypedlambda")
 
 
@@ -36,6 +37,12 @@ def render(cid, cfg, ctx):
         # the forms available without a known target type: ignore / none
         cfg = dict(cfg, arms=[dict(a, form=("ignore" if a["form"] == "bind" else a["form"])) for a in cfg["arms"]])
     s = "package main\n\n" + ("import frt\n\n" if need_frt else "")
+    if ctx in NORUN:
+        # the union's name coincides with an instance of a generic union in name-and-type-argument encodings (U7_int / U7<int>); the
+        # generic one has other cases and is mentioned between the last mention of the tested union and the match
+        s += "type %s<T> =\n| Ga%d of T\n| Gb%d\n\n" % (u, cid, cid)
+        g = u
+        u = u + "_int"
     s += "type %s =\n" % u + "".join("| %s%s\n" % (c["n"], " of int" if c["p"] else "") for c in cfg["cases"]) + "\n"
     if ctx == "arm":
         s += "type O%d =\n| Oa%d\n| Ob%d\n\n" % (cid, cid, cid)
@@ -64,6 +71,11 @@ def render(cid, cfg, ctx):
         s += "type W%d =\n| Wrap%d of %s\n| Other%d\n\nlet id%d (x:%s) =\n  x\n\n" % (cid, cid, u, cid, cid, u)
         s += "let %s (v:%s) =\n  let w = Wrap%d (id%d v)\n  match w with\n  | Wrap%d u ->\n    match u with\n%s\n  | _ -> 0\n" % (
             f, u, cid, cid, cid, arm_lines(cfg, "    "))
+    elif ctx == "coincide":
+        s += "let %s (u:%s) (o:%s<int>) =\n  match u with\n%s\n" % (f, u, g, arm_lines(cfg, "  "))
+    elif ctx == "coincide2":
+        s += "let k%d (o:%s<int>) =\n  match o with\n  | Ga%d _ -> 1\n  | Gb%d -> 2\n\n" % (cid, g, cid, cid)
+        s += "let %s (u:%s) =\n  let o = Gb%d<int> ()\n  match u with\n%s\n" % (f, u, cid, arm_lines(cfg, "  "))
     elif ctx == "untyped":
         s += "let %s u =\n  match u with\n%s\n" % (f, arm_lines(cfg, "  "))
     elif ctx == "untypedlambda":
@@ -88,7 +100,7 @@ def observe_one(wd, cid, cfg, cx, res):
 
 def run_accepted(ctx, wd, obs, cap):
     """compile accepted programs (at most cap, spread evenly) in one package and call each function with every constructor"""
-    acc = [o for o in obs if o["rc"] == 0 and o["gen"] and o["typed"]]
+    acc = [o for o in obs if o["rc"] == 0 and o["gen"] and o["typed"] and o["ctx"] not in NORUN]
     if len(acc) > cap:
         step = len(acc) / float(cap)
         acc = [acc[int(i * step)] for i in range(cap)]
